@@ -1012,7 +1012,11 @@ def verify(prop, modnames, tier, seed, only=None):
                     # the contract declares and does not allow: it is implicitly
                     # required when the function is otherwise under a discharged contract
                     # (likewise "loop not left early": it only exists once the body can break/return)
-                    implicit = (cl['kind'] in ('frame', 'not-left-early') and any(
+                    # (likewise an escaping exception where the contract says that "nothing escapes" IS the clause:
+                    #  opts exceptions_stay_inside - the obligation only exists once some path lets one out)
+                    cobj_ = S.REGISTRY.get(r['key'])
+                    strict_exc = bool(cobj_ is not None and (cobj_.opts or {}).get('exceptions_stay_inside'))
+                    implicit = ((cl['kind'] in ('frame', 'not-left-early') or (cl['kind'] == 'no-exc' and strict_exc)) and any(
                         n_.startswith('%s[%s]::' % (r['key'], r['case'])) for n_ in required))
                     if name in required or implicit:
                         out['violations'].append({
